@@ -9,8 +9,19 @@ META = dict(
 )
 
 
+def build_driver_lib(ctx):
+    """The line-protocol driver imports executable-only modules that no Props module imports; make sure their
+    .olean files are current (lean --run does not rebuild imports)."""
+    import verif
+    mods = "PocketModel.Store.DiskDriver".split()
+    rc, out = verif.sh(["lake", "build"] + mods, cwd=verif.LEAN, timeout=3000)
+    if rc != 0:
+        ctx.fail("build", "driver-lib", "lake build %s failed:\n%s" % (" ".join(mods), out[-1200:]))
+
+
 def run(ctx):
     ctx.lean_proofs("Props.C04")
+    build_driver_lib(ctx)
     ctx.rule("c04: per history 1-3 IAVL substores, 2-8 blocks of 0-7 (small key space 4-13 keys) or 5-29 (40-99 keys) writes, 1/3 deletes, "
              "values incl. empty; after each commit with prob 1/3 the store object is replaced by a new one on the same DB; at the end "
              "every version 1..latest+1 is loaded on a new object and lazily; a replica runs the same history on another DB; "
